@@ -34,6 +34,11 @@ CHECKS = {
             'every execution path; refused bodies produce no message event.',
             'Trusted: CrossHair, z3, the simulated environment (cooperative schedules only). Known finding F6 (POST blocked '
             'in close(wait=True)) is waived for exactly the state classes listed in known_findings.json.', '§3 C04'),
+    'C12': (SIM + '; symbolic selectors over method x EIO x transport x session kind x Upgrade/Connection headers x JSONP index x configured transports; reference admission table; differential no-effect oracle',
+            'Every request of the bounded cross product that the statement says must be refused is answered 400/405 (or the '
+            'websocket handshake is rejected) on every path, on both servers, and the follow-up observations of every session '
+            'equal those of the run without the refused request.',
+            'Trusted: CrossHair, z3, the simulated environment. One-directional ("admitted only if"): admitted requests are not judged here.', '§3 C12'),
 }
 
 NOT_BUILT = 'check not built yet in this round (see DESIGN.md §8 build order); not claimed until it runs'
